@@ -9,7 +9,9 @@ EXPLANATION = (
     "R3 the optimal sizes satisfy the room requirements derived in DESIGN C09 (n_int >= x.n_int + y.n_frac + [both signed]; floordiv n_frac >= 0; "
     "mod signed >= divisor's sign, n_int >= y.n_int or min(...) when both unsigned, n_frac >= max) - decided by the ordering procedure of the term "
     "engine with a counter-example grid for reports; R4 for / and % the alignment exponents are >= 0 under optimal sizing; the four operator methods "
-    "reach truediv/floordiv/mod with the right operand order. Residual: raw==repr numeric identity; binary64 exactness of // on aligned doubles.")
+    "reach truediv/floordiv/mod with the right operand order. Residual: raw==repr numeric identity; binary64 exactness of // on aligned doubles."
+    ' Added after the third round of seeded changes: current n_int after resize (C02.R3), the 64-bit machine carrier the pre-scaling runs in (C18.R5), transparent numpy dispatch for np.divide/floor_divide/mod (C15.R5), template sizes (C08.R3b), route selection (C07.R8), constructor state (C20.R2).'
+)
 ASSUMPTIONS = ["operands are well-formed (n_int = n_word - n_frac - [signed], n_word >= 1)", "Python/NumPy // floors and % takes the divisor's sign (lemma)"]
 TRUSTED = ["CPython ast", "fxlint ordering procedure (sound, incomplete)", "scale typing rules of DESIGN A6"]
 
